@@ -49,7 +49,7 @@ func rampBound(t, interval time.Duration, inc intstr.IntOrString, maxParallel in
 
 func (e *C09) Run(ctx *core.Ctx, idx int) {
 	r := ctx.Rand
-	intervals := []time.Duration{time.Second, time.Minute, 7 * time.Minute}
+	intervals := []time.Duration{time.Second, time.Minute, 7 * time.Minute, 500 * time.Millisecond, 1500 * time.Millisecond, 36 * time.Hour}
 	incs := []intstr.IntOrString{intstr.FromInt(1), intstr.FromInt(3), intstr.FromString("10%"), intstr.FromString("100%")}
 	maxPs := []int32{1, 5, 250}
 	now := kit.T0
